@@ -91,7 +91,7 @@ class RecordLoop:
         self.fx = fx
         self.path = path
         self.body = fx.bodies[path]
-        self.sy = S.Sym(fx, opaque=opaque)
+        self.sy = S.Sym(fx, opaque=opaque, inline_mut=True)
         self.res = self.sy.eval_body(self.body)
         self.loop = None
         for key in self.sy.loop_order:
